@@ -43,7 +43,8 @@ ASSUMPTIONS = ['TIF-marked LIS files whose first record is exactly 276 bytes sha
                'the watchdog is 60 s for inputs whose normal cost is milliseconds']
 SHARDS = {'quick': 4, 'thorough': 16}
 REQUIRED_CLASSES = {'valid-RP66V1': 1, 'valid-LIS': 1, 'valid-LISt': 1, 'valid-LIStr': 1, 'valid-LAS1.2': 1, 'valid-LAS2.0': 1, 'valid-BIT': 1,
-                    'valid-DAT': 1, 'arbitrary-truncation': 1, 'arbitrary-mutation': 1, 'arbitrary-splice': 1, 'arbitrary-random': 1, 'arbitrary-text-token': 1}
+                    'valid-DAT': 1, 'arbitrary-truncation': 1, 'arbitrary-mutation': 1, 'arbitrary-splice': 1, 'arbitrary-random': 1, 'arbitrary-text-token': 1,
+                    'valid-DAT-first-row-beyond-4KiB': 1, 'valid-file>8KiB': 1}
 
 
 class Timeout(Exception):
@@ -133,7 +134,10 @@ def valid_cases(draw):
         return {'fmt': fmt, 'model': draw(GA.las_models(max_curves=5, max_frames=12, min_curves=2)), 'layout': draw(GA.layouts())}
     if fmt == 'BIT':
         return {'fmt': fmt, 'model': draw(GB.bit_models(max_passes=2, max_channels=6, max_frames=30))}
-    return {'fmt': fmt, 'model': draw(GD.dat_models(max_channels=6, max_rows=8, min_rows=1))}
+    # 'extra_decls': declared channels that the header line does not use (legal), added at rendering time so that the
+    # declarations + header + first row reach well beyond 4 KiB without a huge Hypothesis example
+    extra = draw(st.sampled_from([0, 0, 0, 0, 150, 400]))
+    return {'fmt': fmt, 'model': draw(GD.dat_models(max_channels=6, max_rows=8, min_rows=1)), 'extra_decls': extra}
 
 
 def render(case):
@@ -157,7 +161,13 @@ def render(case):
         # the header block of a BIT file is 276 bytes (ReadBIT docstring): an 8 byte tail after the five range floats
         model = dict(case['model'], passes=[dict(p, tail=bytes(p['tail'][:8]).ljust(8)) for p in case['model']['passes']])
         return GB.encode_bit_file(model), 'BIT', None, True
-    text = GD.render_dat(case['model'])
+    model = case['model']
+    if case.get('extra_decls'):
+        used = {d['name'] for d in model['decls']}
+        more = [{'name': 'X%03d' % i, 'desc': ['Unused', 'channel', 'number', str(i), 'with', 'a', 'long', 'description'], 'units': 'm',
+                 'seps': [' '] * 9, 'trail': ''} for i in range(case['extra_decls']) if 'X%03d' % i not in used]
+        model = dict(model, decls=list(model['decls']) + more)
+    text = GD.render_dat(model)
     return text.encode('ascii'), 'DAT', None, len(case['model'].get('rows', [])) >= 2
 
 
@@ -166,6 +176,12 @@ def las_version_of(model):
         if k in model:
             return str(model[k])
     return None
+
+
+def _dat_first_row_end(data):
+    import re
+    m = re.search(rb'^UTIM[ \t]+DATE[ \t]+TIME[^\n]*\n[^\n]*\n?', data, re.M)
+    return m.end() if m else 0
 
 
 def check_valid(case, cc):
@@ -187,6 +203,8 @@ def check_valid(case, cc):
     if exp is None:
         return
     cc.cls('valid-' + exp)
+    cc.cls('valid-file>8KiB', len(data) > 8192)
+    cc.cls('valid-DAT-first-row-beyond-4KiB', exp == 'DAT' and _dat_first_row_end(data) > 4096)
     cc.nt(nt)
     if res != exp:
         cc.dev('valid-file-identified-as-own-format', 'misidentified:%s-as-%s' % (exp, res or 'nothing'),
